@@ -20,6 +20,8 @@ func init() {
 }
 
 func runC14(c *Check) {
+	LostReceiverStores(c, "C14.CFG", "message/router/middleware")
+	DefaultsApplied(c, "C14.CFG", "message/router/middleware")
 	P := "C14"
 	const rel = "message/router/middleware"
 	ctor := c.P.Func(rel, "NewMapExpiringKeyRepository")
@@ -218,6 +220,89 @@ func runC14(c *Check) {
 		}
 	}
 	c.Floor(P+".O3", "delete from the tag map", ndel, 1)
+	// the clean-up keeps running for the life of the repository: it is the only thing that lets a key be accepted again
+	var sweepFns []*ssa.Function
+	for _, fn := range la.Funcs {
+		for _, cl := range BuiltinCalls(fn, "delete") {
+			if isTags(cl.Common().Args[0]) {
+				sweepFns = append(sweepFns, HomeFn(fn))
+			}
+		}
+	}
+	nloop := 0
+	for _, sf := range sweepFns {
+		for _, site := range Callers(la.Funcs, sf) {
+			L := HomeFn(site.Parent())
+			if !InLoop(site) {
+				continue
+			}
+			nloop++
+			var done []Edge
+			for _, si := range Selects(L) {
+				for _, cs := range si.Cases {
+					if call, isCall := firstOrigin(cs.Chan).(*ssa.Call); isCall && !cs.Send && CalleeName(call) == "(context.Context).Done" && cs.Edge != nil {
+						done = append(done, *cs.Edge)
+					}
+				}
+			}
+			for i, ret := range Returns(L) {
+				c.Report(len(done) > 0 && GuardedBy(L, ret, done), P+".O3", "CLEANUP-ENDS-ONLY-WITH-ITS-CONTEXT", L, ret.Pos(), fmt.Sprintf("clean-up loop return#%d", i), "the clean-up loop ends only through its context's Done() case (an idle or empty repository must keep being swept: keys added later have to expire too)")
+			}
+			// started by the constructor on every successful path
+			startsLoop := func(in ssa.Instruction) bool {
+				g, isGo := in.(*ssa.Go)
+				if !isGo {
+					return false
+				}
+				cal := CalleeFn(&g.Call)
+				if cal == nil {
+					cal = FuncOfValue(firstOrigin(g.Call.Value))
+				}
+				return cal == L || (cal != nil && len(Callers([]*ssa.Function{cal}, L)) > 0)
+			}
+			var gos []ssa.Instruction
+			AllInstrs(ctor, func(in ssa.Instruction) {
+				if startsLoop(in) {
+					gos = append(gos, in)
+					return
+				}
+				// or a helper of the package, called in place, that starts it on all its paths
+				if call, isCall := in.(*ssa.Call); isCall {
+					if h := CalleeFn(call.Common()); h != nil && h.Pkg == ctor.Pkg && len(h.Blocks) > 0 {
+						var hg []ssa.Instruction
+						rawInstrs(h, func(x ssa.Instruction) {
+							if startsLoop(x) {
+								hg = append(hg, x)
+							}
+						})
+						if len(hg) > 0 {
+							all := true
+							re := rawReachEntry(h, hg)
+							for _, r := range Returns(h) {
+								if re[r] {
+									all = false
+								}
+							}
+							if all {
+								gos = append(gos, in)
+							}
+						}
+					}
+				}
+			})
+			okStart := len(gos) > 0
+			if okStart {
+				re := ReachEntry(ctor, NewCut().AddInstrs(gos...))
+				for _, ret := range Returns(ctor) {
+					if re[ret] && RetNil(ret, 1) {
+						okStart = false
+					}
+				}
+			}
+			c.Report(okStart, P+".O3", "CLEANUP-STARTED-WITH-THE-REPOSITORY", ctor, ctor.Pos(), "constructor", "every repository the constructor hands out has its clean-up loop running (started by the constructor, not lazily by a later call)")
+		}
+	}
+	c.Floor(P+".O3", "clean-up loop calling the sweep", nloop, 1)
 
 	la.ReportLeaks(c, P+".O1", la.Funcs)
 	c14Defaults(c, P)
@@ -517,6 +602,51 @@ func c14Hashers(c *Check, P string) {
 			}
 		})
 		c.Report(onlyPayload && nread >= 1, P+".O4", "HASH-PAYLOAD-ONLY", inner, inner.Pos(), name, "the key depends on the payload only (equal payloads give equal keys)")
+		// the closure may hand the work to a function of the package (shared by the hashers): then that function is
+		// read with its parameters standing for the closure's arguments, and the closure must return its results as they are
+		closure := inner
+		bind := map[*ssa.Parameter]ssa.Value{}
+		if len(CallsTo(inner, "io.CopyN"))+len(CallsTo(inner, "io.Copy")) == 0 {
+			for _, cl := range CallsIn(inner) {
+				cal := CalleeFn(cl.Common())
+				if cal == nil || cal.Pkg != inner.Pkg || cal.Parent() != nil || len(CallsTo(cal, "io.CopyN"))+len(CallsTo(cal, "io.Copy")) == 0 {
+					continue
+				}
+				tail := true
+				for _, r := range Returns(inner) {
+					for k := range r.Results {
+						if !AllOrigins(r.Results[k], func(o ssa.Value) bool { return IsResultOf(o, cl, k) }) {
+							tail = false
+						}
+					}
+				}
+				if tail {
+					for i, prm := range cal.Params {
+						if i < len(cl.Common().Args) {
+							bind[prm] = cl.Common().Args[i]
+						}
+					}
+					inner = cal
+				}
+			}
+		}
+		orig := func(v ssa.Value) []ssa.Value {
+			var out []ssa.Value
+			for _, o := range Origins(v) {
+				if prm, isP := o.(*ssa.Parameter); isP && bind[prm] != nil {
+					out = append(out, Origins(bind[prm])...)
+				} else {
+					out = append(out, o)
+				}
+			}
+			return out
+		}
+		first := func(v ssa.Value) ssa.Value {
+			if os := orig(v); len(os) > 0 {
+				return os[0]
+			}
+			return v
+		}
 		cps := CallsTo(inner, "io.CopyN")
 		var cpDst, cpSrc, cpLim ssa.Value
 		if len(cps) > 0 {
@@ -535,7 +665,7 @@ func c14Hashers(c *Check, P string) {
 		}
 		cp := cps[0]
 		// limit: max(readLimit, minimum)
-		lim := Origins(cpLim)
+		lim := orig(cpLim)
 		okLim, hasParam, hasMin := true, false, false
 		for _, o := range lim {
 			if p, ok := o.(*ssa.Parameter); ok && p.Parent() == outer {
@@ -571,15 +701,21 @@ func c14Hashers(c *Check, P string) {
 		c.Report(okLim && hasParam && hasMin && okClamp, P+".O4", "HASH-READ-LIMIT", inner, cp.Pos(), name, "CopyN reads max(readLimit, MessageHasherReadLimitMinimum) bytes")
 		// reader: bytes.NewReader(payload)
 		rd, ok := firstOrigin(unwrapIface(cpSrc)).(*ssa.Call)
-		okRd := ok && CalleeName(rd) == "bytes.NewReader" && AllOrigins(rd.Call.Args[0], func(v ssa.Value) bool {
-			f := LoadedField(v)
-			return f != nil && f.Name() == "Payload"
-		})
+		okRd := ok && CalleeName(rd) == "bytes.NewReader"
+		if okRd {
+			srcs := orig(unwrapSliceConv(rd.Call.Args[0]))
+			okRd = len(srcs) > 0
+			for _, v := range srcs {
+				if f := LoadedField(v); f == nil || f.Name() != "Payload" {
+					okRd = false
+				}
+			}
+		}
 		c.Report(okRd, P+".O4", "HASH-READS-PAYLOAD", inner, cp.Pos(), name, "the hashed bytes are the payload")
 		// fresh hash per message; the returned key is its Sum(nil)
-		hv, ok := firstOrigin(cpDst).(*ssa.Call)
+		hv, ok := first(unwrapIface(cpDst)).(*ssa.Call)
 		want := map[string]string{"NewMessageHasherAdler32": "hash/adler32.New", "NewMessageHasherSHA256": "crypto/sha256.New"}[name]
-		okH := ok && CalleeName(hv) == want && hv.Parent() == inner
+		okH := ok && CalleeName(hv) == want && hv.Parent() == closure
 		c.Report(okH, P+".O4", "HASH-FRESH-STATE", inner, cp.Pos(), name, "a fresh "+want+"() state is used per message")
 		okSum := false
 		okOnly := true
